@@ -8,7 +8,7 @@ RULE = ("cases = corpus + seeded conformant streams (independent encoder) decode
 
 CFG = {
     "gen_profiles": ["C14"],
-    "cases": {"quick": 200, "thorough": 2500},
+    "cases": {"quick": 500, "thorough": 5000},
     "compare": "set",
     "rule": RULE,
     "nontrivial": lambda body, mout: any("hex:3b30" in op[:60] for op in body) or any((" nc=" in o and " nc=0 " not in o and " nc=1 " not in o) for o in mout),
